@@ -1,5 +1,6 @@
 import SspModel.Lemmas.Eject
 import SspModel.Lemmas.Bridge.Kicks
+import SspModel.Lemmas.Bridge.Eject
 import SspModel.Model.Kicks
 import Mathlib.Analysis.SpecialFunctions.Sqrt
 import Mathlib.Analysis.Calculus.Deriv.Pow
@@ -125,6 +126,15 @@ theorem unboundKicks_real (fret : ℝ → ℝ) (l : List (ℝ × ℝ)) :
   unfold unboundKicks; simp only [real_zero]
 
 structure Statement : Prop where
+  /-- one step of the per-bin bookkeeping is the source's own: skip threshold, retention argument, ejecta accumulator, in-place scalings -/
+  source_step : ∀ (fret : ℝ → ℝ) (m n acc : ℝ) (rest : List (ℝ × ℝ)),
+    unboundKicksAux fret ((m, n) :: rest) acc =
+      if Scalar.lt n (Generated.kickSkip : ℝ) then
+        ((m, n) :: (unboundKicksAux fret rest acc).1, (unboundKicksAux fret rest acc).2)
+      else
+        let ret := fret (Generated.kick_arg m n)
+        ((Generated.kick_M m ret, Generated.kick_N n ret) :: (unboundKicksAux fret rest (Generated.kick_acc acc m ret)).1,
+         (unboundKicksAux fret rest (Generated.kick_acc acc m ret)).2)
   /-- Maxwellian retention = speed distribution integrated from 0 to the escape velocity -/
   cdf_is_integral : ∀ a v : ℝ, 0 < a → maxwellCdf a v = ∫ x in (0:ℝ)..v, Generated.maxwellian x a
   /-- … lies in [0,1] … -/
@@ -160,6 +170,7 @@ theorem partial_fallback (fb vesc vdisp : ℝ) (h : fb < 1) :
   simp only [real_one, this, Bool.false_eq_true, if_false]
 
 theorem C15_holds : Statement where
+  source_step := Bridge.gen_unboundKicksAux_cons
   cdf_is_integral := fun a v ha => by
     rw [maxwellCdf_eq_integral a v ha]; simp only [Bridge.gen_maxwellian]
   cdf_mem := maxwellCdf_mem
